@@ -1,5 +1,6 @@
 import SE.Model.Cache
 import SE.Spec.Mapping
+import SE.Spec.TemplateRefs
 import SE.Driver.Float
 /-
 Line-protocol front end of the mapper model. Shared by the `mapper` command (lookup/reload
@@ -179,7 +180,8 @@ def classifyTmpl (tmpl name : Bytes) : String :=
   let refs := findRefs tmpl.length tmpl
   if tmpl.contains cPct then "template_has_percent"
   else if hasStarComp name then "literal_star_component"
-  else if refs.any (fun r => r.2.contains cDollar) then "template_dollar_in_reference"
+  else if refs.any (fun r => r.2.contains cDollar) then "template_dollar_in_reference"   -- repaired (4d631d3): cannot fire with `isRefByte = isWordByte`
+  else if hasDollarDollar tmpl then "template_dollar_escape"
   else if refs.any (fun r => refs.any (fun q => r.1 != q.1 && r.1.isPrefixOf q.1)) then "template_ref_prefix_of_ref"
   else if refs.any (fun r => (r.1.contains cLBrace) != (r.1.contains cRBrace)) then "template_brace_mismatch"
   else if refs.any (fun r => r.2.head? == some 48 && r.2.length > 1 && (atoiDigits r.2).isSome) then "template_leading_zero_ref"
